@@ -334,6 +334,18 @@ class World:
                          "update0"])
         relname = RELNAME[ck[0]]
         others = self.pick_others(ck, p)
+        if op in ("discard", "remove", "isub", "iand") and \
+                rnd.random() < 0.25:
+            # nodes of another kind (e.g. a symbol handed to
+            # module.sections.discard): for the built-in set they are just
+            # non-members
+            wrong = [k for k in "MSYPICD" if k not in ck]
+            pool = self.lids(wrong)
+            sib = [x for x in pool if self.parent.get(x) == p]
+            cand = sib if sib and rnd.random() < 0.7 else pool
+            if cand:
+                others = [rnd.choice(cand)] + others
+                self.ctx.count("c16:set_operand:other-kind-node")
         # operand form for the batch operations: a plain container, another
         # owning collection of the same kind (its members are then moved
         # while it is being iterated), or the collection itself
@@ -737,6 +749,116 @@ class World:
     def sync_list_after_failure(self, irl, cur):
         pass
 
+    # ---- move away and come back -----------------------------------------
+    def move(self, c, p, route):
+        """Move child c to parent p (or detach) through one public route."""
+        k = self.kind[c]
+        pk, attr, coll = REL[k]
+        o = self.obj[c]
+        self.log(op="move", child=c, parent=p, route=route)
+        if p is None:
+            if route == "attr" or self.parent[c] is None:
+                setattr(o, attr, None)
+            else:
+                C = getattr(self.obj[self.parent[c]], coll)
+                if k == "M":
+                    C.remove(o)
+                else:
+                    C.discard(o)
+            self.detach_model(c)
+            return
+        P = getattr(self.obj[p], coll)
+        if route == "attr":
+            setattr(o, attr, self.obj[p])
+        elif k == "M":
+            {"add": P.append, "update": lambda x: P.extend([x]),
+             "ior": lambda x: P.insert(0, x)}[route](o)
+            if route == "ior":
+                self.detach_model(c)
+                self.parent[c] = p
+                self.mods[p].insert(0, c)
+                return
+        elif route == "add":
+            P.add(o)
+        elif route == "update":
+            P.update([o])
+        else:
+            P |= {o}
+        self.attach_model(c, p)
+
+    def op_pingpong(self):
+        """A node leaves its parent for another one (or for none) and comes
+        back, each leg through a random route; nothing else is touched in
+        between (indexes keyed by the node must survive the round trip)."""
+        rnd = self.rnd
+        cands = [c for c in self.lids("MSYPICD") if self.parent[c]]
+        if not cands:
+            return
+        c = rnd.choice(cands)
+        home = self.parent[c]
+        pk = REL[self.kind[c]][0]
+        away = rnd.choice([x for x in self.lids([pk]) if x != home] + [None])
+        if away is not None and not self.can_attach(c, away):
+            self.ctx.count("skipped:uuid-precondition")
+            return
+        routes = ["attr", "add", "update", "ior"]
+        self.move(c, away, rnd.choice(routes))
+        self.verify("pingpong:out:" + RELNAME[self.kind[c]])
+        if not self.can_attach(c, home):
+            return "pingpong:half"
+        self.move(c, home, rnd.choice(routes))
+        self.ctx.count("pingpongs")
+        return "pingpong:" + RELNAME[self.kind[c]]
+
+    def op_bulk(self):
+        """One call that brings tens of nodes at once (update / |= /
+        constructor argument), some fresh, some owned by a sibling parent of
+        the same IR, some owned elsewhere."""
+        rnd, gt = self.rnd, self.gt
+        if len(self.obj) > 120 or getattr(self, "_bulk_done", 0) >= 1:
+            return
+        self._bulk_done = 1
+        pk, coll, ck = rnd.choice(SET_RELS)
+        ps = self.lids(pk)
+        if not ps:
+            return
+        p = rnd.choice(ps)
+        n = rnd.choice([5, 20, 33, 34, 40, 66])
+        donor = rnd.choice(ps)
+        batch = []
+        for i in range(n):
+            k = rnd.choice(ck)
+            kr = rnd.random()
+            if kr < 0.5 and donor != p:
+                batch.append(self.make(k, parent=donor, via_ctor=True))
+            elif kr < 0.8:
+                batch.append(self.make(k))
+            else:
+                batch.append(self.make(k, parent=rnd.choice(ps),
+                                       via_ctor=True))
+        batch = [b for b in batch if self.parent[b] != p]
+        if not self.can_attach_all(batch, p):
+            self.ctx.count("skipped:uuid-precondition")
+            return
+        objs = [self.obj[b] for b in batch]
+        how = rnd.choice(["update", "ior", "update-iter", "update-2"])
+        self.log(op="bulk." + how, parent=p, coll=coll, n=len(batch))
+        S = getattr(self.obj[p], coll)
+        if how == "update":
+            S.update(objs)
+        elif how == "ior":
+            S |= set(objs)
+        elif how == "update-iter":
+            S.update(iter(objs))
+        else:
+            h = len(objs) // 2
+            S.update(objs[:h], objs[h:])
+        for b in batch:
+            self.attach_model(b, p)
+        self.ctx.count("bulk_ops")
+        self.ctx.count("moves", len(batch))
+        return "bulk.%s:%s" % (how, RELNAME[ck[0]])
+
     # ---- constructors that steal children ----------------------------
     def op_ctor(self):
         rnd, gt = self.rnd, self.gt
@@ -991,13 +1113,17 @@ class World:
 
 WEIGHTS = {
     "C03": {"set_parent": 5, "set_mutation": 6, "list": 4, "ctor": 3,
-            "symbol": 1, "attr": 1, "load": 1, "set_query": 1},
+            "symbol": 1, "attr": 1, "load": 1, "set_query": 1,
+            "pingpong": 3, "bulk": 1},
     "C04": {"set_parent": 6, "set_mutation": 5, "list": 3, "ctor": 4,
-            "symbol": 1, "attr": 4, "load": 1, "set_query": 1},
+            "symbol": 1, "attr": 4, "load": 1, "set_query": 1,
+            "pingpong": 3, "bulk": 1},
     "C10": {"set_parent": 4, "set_mutation": 4, "list": 2, "ctor": 3,
-            "symbol": 8, "attr": 1, "load": 1, "set_query": 0},
+            "symbol": 8, "attr": 1, "load": 1, "set_query": 0,
+            "pingpong": 6, "bulk": 0},
     "C16": {"set_parent": 2, "set_mutation": 6, "list": 7, "ctor": 2,
-            "symbol": 1, "attr": 1, "load": 0, "set_query": 6},
+            "symbol": 1, "attr": 1, "load": 0, "set_query": 6,
+            "pingpong": 1, "bulk": 1},
 }
 
 
